@@ -132,16 +132,20 @@ class Model:
                                       __import__("resource").RLIMIT_STACK, (-1, -1)))
         self.calls = 0
     def many(self, reqs, chunk=2000):
+        import threading
         out = []
         for i in range(0, len(reqs), chunk):
             part = reqs[i:i + chunk]
             data = "".join("\t".join(esc(x) for x in r) + "\n" for r in part)
-            self.p.stdin.write(data); self.p.stdin.flush()
+            def feed():
+                self.p.stdin.write(data); self.p.stdin.flush()
+            th = threading.Thread(target=feed); th.start()     # writer thread: avoids a pipe deadlock
             for _ in part:
                 line = self.p.stdout.readline()
                 if not line:
                     raise RuntimeError("model driver died")
                 out.append([unesc(x) for x in line.rstrip("\n").split("\t")])
+            th.join()
         self.calls += len(reqs)
         return out
     def one(self, *r):
@@ -161,15 +165,20 @@ class Ref:
         self.p = subprocess.Popen([PY, "-I", str(VERIF / "harness" / "ref_server.py")], stdin=subprocess.PIPE,
                                   stdout=subprocess.PIPE, text=True, env=env, cwd="/")
     def many(self, reqs, chunk=2000):
+        import threading
         out = []
         for i in range(0, len(reqs), chunk):
             part = reqs[i:i + chunk]
-            self.p.stdin.write("".join(json.dumps(r) + "\n" for r in part)); self.p.stdin.flush()
+            data = "".join(json.dumps(r) + "\n" for r in part)
+            def feed():
+                self.p.stdin.write(data); self.p.stdin.flush()
+            th = threading.Thread(target=feed); th.start()     # writer thread: avoids a pipe deadlock
             for _ in part:
                 line = self.p.stdout.readline()
                 if not line:
                     raise RuntimeError("reference server died")
                 out.append(json.loads(line))
+            th.join()
         return out
     def one(self, *r):
         return self.many([list(r)])[0]
